@@ -73,6 +73,17 @@ pub fn field_verdict(l: &Layout, f: &Field) -> Verdict {
                 }
                 return Verdict::Unspecified("huge stride that fits".into());
             }
+            "count" => {
+                // array length written as a huge number: (count - 1) * stride + top of element 0, in 128 bits
+                let (stride, top0) = match &f.array {
+                    Some(a) => (a.stride.unwrap_or_else(|| f.width()) as u128, f.ranges.iter().map(|r| r.hi).max().unwrap() as u128),
+                    None => return Verdict::Unspecified("count on a non-array".into()),
+                };
+                if h.value >= 2 && stride >= 1 && top0 + (h.value as u128 - 1) * stride >= base {
+                    return Verdict::Invalid(vec!["R4-above-base".into()]);
+                }
+                return Verdict::Unspecified("huge count that fits".into());
+            }
             "hi0" => {
                 if (h.value as u128) >= base && (h.value as u128) >= f.ranges[0].lo as u128 {
                     return Verdict::Invalid(vec!["R4-above-base".into()]);
@@ -368,7 +379,7 @@ mod tests {
         Field { name: "f0".into(), kw_bit: false, list: false, ranges: vec![Rng::new(lo, hi)], array: None, ty, access: Access::RW }
     }
     fn lay(bits: u32, fields: Vec<Field>) -> Layout {
-        Layout { name: "S".into(), base_bits: bits, default: None, default_colon: false, debug: false, fields, enums: vec![], inners: vec![], debug_first: false, vis: 0, decoys: 0, derives: 0 }
+        Layout { name: "S".into(), base_bits: bits, default: None, default_colon: false, debug: false, fields, enums: vec![], inners: vec![], debug_first: false, vis: 0, decoys: 0, derives: 0, handwritten: 0 }
     }
     #[test]
     fn validity() {
